@@ -15,7 +15,7 @@ BOUND = {'j1939-21': 1_250_000, 'j1939-22': 3_000_000}
 PROBE = 25_000
 
 
-def base(dll, kind, npk, win, seed, paced=False):
+def base(dll, kind, npk, win, seed, paced=False, soon=False):
     unit = 7 if dll == 'j1939-21' else 60
     size = unit * npk - (seed % (unit - 1))          # npk packets, last one partial (or full when seed % .. == 0)
     # address 0 is an address like any other: it takes its turn on either side
@@ -31,6 +31,10 @@ def base(dll, kind, npk, win, seed, paced=False):
         stacks[0]['cmdt_iv'] = 0.05
     pf, ps = (0xFE, 0xCA) if kind == 'bam' and seed % 2 else (0xD0, da)
     tf = T_FOLLOW[dll] + (npk * 60000 if kind == 'bam' else 0)
+    if soon:
+        # the next broadcast of the same source is announced shortly after the first has gone out — before a receiver that missed
+        # a frame has given the incomplete one up (T1 = 750 ms): it is delivered intact all the same, and nothing else is
+        tf = 1000 + (npk + 1) * (50000 if dll == 'j1939-21' else 10000) + 120000
     script = [dict(t=1000, s=0, op='send', a=[0, pf, ps, 6, sa, dict(seed=seed, len=size)]),
               dict(t=tf, s=0, op='send', a=[0, pf, ps, 6, sa, dict(seed=seed + 1, len=size + 1)])]
     horizon = tf + 5_000_000 + npk * 60000
@@ -47,15 +51,17 @@ def base(dll, kind, npk, win, seed, paced=False):
     return dict(stacks=stacks, lat=[500], jit=[1], script=script, horizon=horizon, faults=[], tf=tf, kind=kind, dll=dll)
 
 
-def cases(dll, kind, npk, win, seed, paced=False):
+def cases(dll, kind, npk, win, seed, paced=False, soon=False):
     """the clean run plus every single-frame loss and every silence point"""
-    sc0 = base(dll, kind, npk, win, seed, paced)
+    sc0 = base(dll, kind, npk, win, seed, paced, soon)
     res0 = scen.run(sc0)
     nfr = sum(1 for e in res0.trace if e[2] == 'tx' and e[0] < sc0['tf'])
     per = [sum(1 for e in res0.trace if e[2] == 'tx' and e[0] < sc0['tf'] and e[1] == s) for s in (0, 1)]
     out = [(sc0, res0)]
     for k in range(1, nfr + 1):
         out.append((dict(sc0, faults=[dict(drop=k)]), None))
+    if soon:
+        return out
     for s in (0, 1):
         for k in range(1, per[s] + 1):
             out.append((dict(sc0, faults=[dict(silent=[s, k], until=sc0['tf'] - 500_000)]), None))
@@ -194,6 +200,8 @@ def explore(out, tier, dlls, limit=None):
         extra = bg_cases(dll, win, seed) if (kind == 'p2p' and npk == 3 and win == 1) else []
         if kind == 'p2p' and npk == 5 and win == 2:
             extra = extra + cases(dll, kind, npk, win, seed=seed + 1, paced=True)
+        if kind == 'bam' and npk in (3, 5, 8):
+            extra = extra + cases(dll, kind, npk, win, seed=seed + 2, soon=True)
         for sc, res in cases(dll, kind, npk, win, seed=seed) + extra:
             if res is None:
                 res = scen.run(sc)
